@@ -67,9 +67,12 @@ def run(prog, rep):
     # evaluators on their own
     eng = terms.Engine(prog, inline=True, hooks=E.Hooks([E.OPS]))     # low-level primitives stay opaque (own rule: lowlevel.py)
     n_ev = 0
+    dispatched = set()
+    for fns in sem.operator_callees(en).values():
+        dispatched |= {x.qual for x in fns}
     for f in prog.lib_fns():
-        if not f.path.startswith(E.OPS) or "GraphColoredVertices" not in str(f.ret):
-            continue
+        if not f.path.startswith(E.OPS) or "GraphColoredVertices" not in str(f.ret) or f.qual not in dispatched:
+            continue          # evaluators eval_node dispatches to (generic helpers are covered through them)
         gparam, sets = sem.roles(f)
         if gparam is None:
             continue
@@ -87,18 +90,37 @@ def run(prog, rep):
         n_ev += 1
         rep.check(ok, "C03-R1", f"{f.name}", f"{f.file}:{f.line}", "evaluator result is a subset of unit(graph) for bounded arguments",
                   f"{f.name} returns {sem.short(s.ret, 200)}, not shown to be a subset of unit(graph)")
-    # R2: absolute complements
+    # R2: absolute complements never reach a caller unbounded: every public function of the evaluation modules whose
+    # value involves an absolute BDD operation (not / iff / xor / imp) returns a set bounded by its graph's unit set
+    eng2 = terms.Engine(prog, inline=True, hooks=E.Hooks([E.OPS, E.LOW, E.ALG], opaque_names=[E.ALG + "eval_node", E.ALG + "compute_attractor_states",
+                        E.ALG + "compute_steady_states"] + [E.LOW + a for a in lowlevel.ANCHORS]))
     for f in prog.lib_fns():
         if not (f.path.startswith(E.OPS) or f.path.startswith(E.LOW) or f.path.startswith(E.ALG)):
             continue
-        s = terms.Engine(prog, inline=False).summary(f)
-        for st in s.sites:
-            if st.kind in ("call", "mcall") and isinstance(st.callee, str) and "Bdd" in st.callee and st.callee.rsplit("::", 1)[-1] in ("not", "iff", "xor", "imp", "mk_not"):
-                inside_eq = f.name == "create_equalizer"
-                rep.check(inside_eq, "C03-R2", f"{f.name}/{st.short()}@{st.ordinal}", st.where(),
-                          "absolute BDD operation only inside create_equalizer (result intersected with the unit set)",
-                          f"absolute BDD operation `{st.short()}` in {f.name}: complements must be taken relative to the unit set")
-    rep.floor("C03-R2", 2)
+        is_anchor = f.path in [E.LOW + a for a in lowlevel.ANCHORS]
+        if (f.vis != "Public" and not is_anchor) or "GraphColoredVertices" not in str(f.ret):
+            continue
+        s2 = eng2.summary(f)
+        if s2 is None:
+            continue
+        absolute = [x for x in subterms(s2.ret) if x[0] == "call" and isinstance(x[1], str) and "Bdd" in x[1]
+                    and x[1].rsplit("::", 1)[-1] in ("not", "iff", "xor", "imp", "mk_not")]
+        if not absolute:
+            continue
+        gparam, _ = sem.roles(f)
+        ok = False
+        if gparam is not None:
+            alg = setalg.Alg()
+            try:
+                ok = alg.equivalent(alg.interp(s2.ret), ("and", alg.interp(s2.ret), alg.interp(S.UNIT(gparam))))
+            except ValueError:
+                ok = False
+            ok = ok or bd.bounded(s2.ret, gparam)
+        rep.check(ok, "C03-R2", f"{f.name}/absolute-op", f"{f.file}:{f.line}",
+                  "value built with an absolute BDD operation is intersected with the unit set before it is returned",
+                  f"{f.name} builds its result with the absolute BDD operation `{absolute[0][1].rsplit('::', 1)[-1]}` and does not intersect it with the unit set: "
+                  "complements must be taken relative to the unit set")
+    rep.floor("C03-R2", 1)
     # R3
     for key, shape, alts, kind, op in sem.plain_shapes() + sem.domain_shapes():
         if kind == "hybrid":
